@@ -80,6 +80,25 @@ def rule_vocabulary():
     return _VOCAB
 
 
+_VOCAB_BROAD = None
+
+
+def rule_vocabulary_broad():
+    """for PUBLIC callees the test is stricter: any lower-case identifier that occurs as a complete string literal in a rule
+    pack (`for fn in ("validate_first_update", ..)`, table keys) counts as named - a public function is part of the API the
+    rules were written against, so it is inlined only when certainly no rule looks for it"""
+    global _VOCAB_BROAD
+    if _VOCAB_BROAD is None:
+        d = os.path.join(os.path.dirname(os.path.dirname(os.path.abspath(__file__))), "rules")
+        body = []
+        for fn in sorted(os.listdir(d)):
+            if fn.endswith(".py"):
+                with open(os.path.join(d, fn)) as fh:
+                    body.append(fh.read())
+        _VOCAB_BROAD = rule_vocabulary() | set(re.findall(r"[\"']([a-z_][a-z0-9_]*)[\"']", "\n".join(body)))
+    return _VOCAB_BROAD
+
+
 def _last_segment(path):
     p = mir._strip_generics(path)
     p = re.sub(r"::\{closure#\d+\}", "", p)
@@ -87,11 +106,12 @@ def _last_segment(path):
 
 
 def default_policy(facts, callee, rec):
-    """inline a workspace callee iff it is not public, small, and no rule names it"""
+    """inline a workspace callee iff no rule names it and it is small: private helpers up to 60 blocks, public ones only when
+    they are leaf-sized (an extracted predicate / accessor such as `Balance::is_sufficient`, `MarketEvent::is_more_recent_than`)"""
     if rec.get("test") or rec.get("kind") not in ("fn", "assoc_fn"):
         return False
     if rec.get("vis") == "pub":
-        return False
+        return len(rec["blocks"]) <= 12 and _last_segment(callee) not in rule_vocabulary_broad()
     if len(rec["blocks"]) > 60:
         return False
     return _last_segment(callee) not in rule_vocabulary()
